@@ -38,17 +38,26 @@ Definition res_eqb (r : res cstate) (o : option cstate) : bool :=
   | _, _ => false
   end.
 
-(* keccak on code identifiers as observed by the harness; base accounts as a list *)
-Definition mk_env (hashes : list (Z * Z)) (base : list Z) (next_dyn : Z) (supply_pos : bool) : env :=
+(* unsorted association list *)
+Fixpoint aget {V} (k : Z) (l : list (Z * V)) : option V :=
+  match l with
+  | [] => None
+  | (k', x) :: r => if k =? k' then Some x else aget k r
+  end.
+
+(* keccak on code identifiers as observed by the harness; the accounts the auth section of the imported document
+   holds at the addresses the custom modules use (every x/evm genesis account, the fixed precompile addresses, the
+   next dynamic precompile address, the cpc module address): an address not listed holds no account *)
+Definition mk_env (hashes : list (Z * Z)) (accts : list (Z * acct_kind)) (next_dyn : Z) (supply_pos : bool) : env :=
   Env (fun c => match zget c hashes with Some h => h | None => if c =? CODE_EMPTY then EMPTYH else 0 end)
-      (fun a => existsb (Z.eqb a) base) next_dyn supply_pos.
+      (fun a => match aget a accts with Some kd => kd | None => ANone end) next_dyn supply_pos.
 
 Inductive gcase :=
 (* export A; import into B; export B *)
-| GRound (k : cpc_consts) (hashes : list (Z * Z)) (base : list Z) (next_dyn : Z) (supply_pos : bool)
+| GRound (k : cpc_consts) (hashes : list (Z * Z)) (accts : list (Z * acct_kind)) (next_dyn : Z) (supply_pos : bool)
          (s : cstate) (g1 : gen) (imp : option cstate) (g2 : option gen)
 (* import of a genesis document with chosen cpc flags *)
-| GImport (k : cpc_consts) (hashes : list (Z * Z)) (base : list Z) (next_dyn : Z) (supply_pos : bool)
+| GImport (k : cpc_consts) (hashes : list (Z * Z)) (accts : list (Z * acct_kind)) (next_dyn : Z) (supply_pos : bool)
           (g : gen) (imp : option cstate).
 
 Definition gcase_ok (c : gcase) : bool :=
